@@ -15,6 +15,9 @@ Strata
   random   the same workloads under seeded random LINE-event perturbation
   combine  every short history and random longer histories of set_combine_stderr(True|False)
            before/after the first fileno(), mixed with feeds, reads and EOF (sequential)
+  zero     zero-length CHANNEL_DATA / EXTENDED_DATA feeds at every level (stub histories,
+           BufferedPipe+event, raw packets over a transport pair); classified under one signature
+  instr    second sweep of the 2-thread core workloads at INSTRUCTION granularity
   blocked  a reader already blocked in read/recv/recv_stderr(n) when ONE feed of <, ==, > n
            bytes arrives; BufferedPipe+event directly, Channel on the stub transport (serial
            + full sweep) and Channel over a real client/server transport pair
@@ -101,12 +104,12 @@ class Bench:
             steps.append(("err", st["err"]))
         if st["phase"] == "eof":
             steps.append(("eof",))
-        pos = {"first": 0, "mid": max(0, len(steps) - 1), "last": len(steps)}[st["fileno"]]
+        pos = {"first": 0, "mid": max(0, len(steps) - 1), "last": len(steps), "late": -1}[st["fileno"]]
         for i, s in enumerate(steps):
             if i == pos:
                 self.fd = c.fileno()
             self.feeder_do(s)
-        if self.fd is None:
+        if self.fd is None and st["fileno"] != "late":
             self.fd = c.fileno()
         c.settimeout(None if wl.get("blocking") else 0.0)
         self.log = []
@@ -121,6 +124,8 @@ class Bench:
             d = ERR_BYTES[self.err_off:self.err_off + a[1]]
             self.err_off += a[1]
             c._feed_extended(msg_ext(d))
+        elif a[0] == "ext":  # EXTENDED_DATA of a type the channel discards
+            c._feed_extended(msg_ext(ERR_BYTES[:a[1]], code=a[2]))
         elif a[0] == "eof":
             c._handle_eof(Message())
         elif a[0] == "close":
@@ -150,10 +155,14 @@ class Bench:
             ws.append(("F", lambda prog=wl["feeder"]: [self.feeder_do(a) for a in prog]))
         for i, prog in enumerate(wl.get("readers", [])):
             ws.append(("R%d" % (i + 1), lambda prog=prog: [self.reader_do(a) for a in prog]))
+        if wl["state"]["fileno"] == "late":
+            ws.append(("A", lambda: self.chan.fileno()))  # the application takes the descriptor meanwhile
         return ws
 
     def observe(self):
         c = self.chan
+        if self.fd is None:
+            self.fd = c.fileno()
         readable = bool(select.select([self.fd], [], [], 0)[0])
         n_out = len(c.in_buffer._buffer)
         n_err = len(c.in_stderr_buffer._buffer)
@@ -190,6 +199,14 @@ def notifier_stats(trace):
     return touched, contended, overlapped
 
 
+ZERO_SIG = "descriptor readable with nothing pending; zero-length data feed set the event"
+
+
+def has_zero_feed(wl):
+    progs = [wl.get("feeder") or []] + list(wl.get("readers") or [])
+    return any(a[0] in ("out", "err") and a[1] == 0 for prog in progs for a in prog)
+
+
 def mismatch_kind(ob):
     if ob["readable"] and not ob["pending"]:
         return "descriptor readable with nothing pending"
@@ -207,9 +224,14 @@ def judge_run(ctx, bench, run, where):
     kind = mismatch_kind(ob)
     if kind is None:
         return ob
+    if kind == "descriptor readable with nothing pending" and has_zero_feed(bench.wl):
+        # stratum that may touch the zero-length-feed mechanism: classified, not judged by schedule
+        ctx.violation(ZERO_SIG, "an empty CHANNEL_DATA/EXTENDED_DATA feed left the descriptor readable with nothing to read",
+                      dict(workload=bench.wl, plan=run.plan.describe(), observed=ob))
+        return ob
     br = bench.wl.get("blocked_reader")
     if br and not notifier_stats(run.trace)[2]:
-        ctx.violation(blocked_sig(kind, br["rel"], "Channel on stub transport"),
+        ctx.violation(blocked_sig(kind, br["rel"], "Channel on stub transport", br.get("late", False)),
                       "select() on Channel.fileno() disagrees with the buffers after a blocked recv was fed",
                       dict(workload=bench.wl, plan=run.plan.describe(), observed=ob, park_at=run.park_at,
                            trace_tail=run.trace[-60:]))
@@ -292,6 +314,8 @@ def run_plan(ctx, eng, wl, plan, stats):
             if blocked_before_feed(run, "R1", "F"):
                 ctx.count("blocked_reader_confirmed_channel_" + br["rel"])
                 ctx.count("blocked_reader_channel_" + br["stream"])
+                if br.get("late") and blocked_before_feed(run, "R1", "A"):
+                    ctx.count("blocked_before_first_fileno_confirmed_channel")
     bench.dispose()
     return run
 
@@ -327,6 +351,7 @@ def start_states():
 
 
 FEED_ACTS = [("out", 2), ("err", 2), ("eof",), ("close",)]
+ZERO_ACTS = [("out", 0), ("err", 0), ("ext", 0, 2), ("ext", 2, 2)]
 READ_ACTS = [("out", 64), ("err", 64), ("out", 1), ("err", 1)]
 
 
@@ -378,7 +403,8 @@ def random_workload(rng, three=True):
     st = dict(out=rng.choice([0, 1, 3]), err=rng.choice([0, 1, 3]), phase=rng.choice(["open", "open", "eof"]),
               fileno=rng.choice(["first", "mid", "last"]))
     while True:
-        prog = [rng.choice(FEED_ACTS + [("unlink",)]) for _ in range(rng.choice([1, 1, 2]))]
+        prog = [rng.choice(FEED_ACTS + [("unlink",)] + (ZERO_ACTS if rng.random() < 0.3 else []))
+                for _ in range(rng.choice([1, 1, 2]))]
         if feeder_ok(st, prog):
             break
     nread = 2 if three else 1
@@ -436,9 +462,9 @@ def blocked_before_feed(run, reader="R", feeder="F", _cache={}):
     return last is not None and last[0] == "BufferedPipe.read" and last[1] in _cache["l"]
 
 
-def blocked_sig(kind, rel, level):
-    return "%s; reader blocked before one feed of %s bytes than requested (%s)" % (
-        kind, {"lt": "fewer", "eq": "as many", "gt": "more"}[rel], level)
+def blocked_sig(kind, rel, level, late=False):
+    return "%s; reader blocked before %sone feed of %s bytes than requested (%s)" % (
+        kind, "the first fileno() and " if late else "", {"lt": "fewer", "eq": "as many", "gt": "more"}[rel], level)
 
 
 def blocked_pipe_level(ctx, eng, stats):
@@ -506,6 +532,53 @@ def blocked_pipe_level(ctx, eng, stats):
                         osp.close()
 
 
+def late_event_pipe_level(ctx, eng, stats):
+    """Reader parked in BufferedPipe.read BEFORE set_event(): reader, then set_event(ev), then one feed."""
+    import threading
+
+    from paramiko.buffered_pipe import BufferedPipe
+
+    idx = 0
+    for n, k in nk_pairs(ctx.quick):
+        idx += 1
+        if not ctx.mine(idx):
+            continue
+        rel = rel_of(k, n)
+        for perm in (["R", "A", "F"], ["R", "F", "A"]):
+            plans = [sched.Plan(order=perm)]
+            counts = None
+            pi = 0
+            while pi < len(plans):
+                plan = plans[pi]
+                pi += 1
+                bp = BufferedPipe()
+                ev = threading.Event()
+                hung = {}
+                run = eng.execute([("R", lambda: bp.read(n, None)), ("A", lambda: bp.set_event(ev)),
+                                   ("F", lambda: bp.feed(OUT_BYTES[:k]))], plan,
+                                  on_hang=lambda r, roles: hung.setdefault("h", roles))
+                if counts is None:
+                    counts = run.counts
+                    plans += sched.Engine.sweep_plans(perm, counts)
+                wl = dict(level="pipe, set_event after the reader blocked", n=n, k=k)
+                ctx.case((repr(wl), repr(plan.describe())))
+                if hung or run.leaked or run.excs:
+                    ctx.inconclusive("late-event pipe case did not finish: %r %r %r" % (wl, run.hung, run.excs))
+                    continue
+                if blocked_before_feed(run, "R", "A") and blocked_before_feed(run, "R", "F"):
+                    ctx.count("blocked_before_set_event_confirmed_pipe")
+                ctx.count("oracle_evaluations")
+                ctx.count("oracle_evaluations_blocked_reader")
+                ob = dict(readable=ev.is_set(), out=len(bp._buffer), err=0, eof=False, closed=False)
+                ob["pending"] = bool(ob["out"])
+                kind = mismatch_kind(ob)
+                if kind is not None:
+                    ctx.violation(blocked_sig(kind.replace("descriptor", "event"), rel, "BufferedPipe+event", late=True)
+                                  .replace("first fileno()", "set_event()"),
+                                  "the event installed while a reader was waiting disagrees with the buffer afterwards",
+                                  dict(wl, plan=plan.describe(), observed=ob, trace_tail=run.trace[-40:]))
+
+
 def blocked_channel_level(ctx, eng, stats):
     """Level B: real Channel on the stub transport; stdout / stderr / stderr combined into stdout."""
     idx = 0
@@ -523,6 +596,13 @@ def blocked_channel_level(ctx, eng, stats):
                 base = run_plan(ctx, eng, wl, sched.Plan(order=perm), stats)
                 for plan in sched.Engine.sweep_plans(perm, base.counts):
                     run_plan(ctx, eng, wl, plan, stats)
+            # the reader is parked in recv BEFORE the first fileno(): reader, then fileno(), then the packet
+            late = dict(wl, state=dict(wl["state"], fileno="late"),
+                        blocked_reader=dict(stream=stream, rel=rel, late=True))
+            for perm in (["R1", "A", "F"], ["R1", "F", "A"], ["A", "R1", "F"]):
+                base = run_plan(ctx, eng, late, sched.Plan(order=perm), stats)
+                for plan in sched.Engine.sweep_plans(perm, base.counts):
+                    run_plan(ctx, eng, late, plan, stats)
 
 
 def _in_blocking_read(ident):
@@ -560,7 +640,8 @@ def blocked_transport_level(ctx, ncases):
             c, s = p.session(timeout=60)
             if stream == "combined":
                 c.set_combine_stderr(True)
-            fd = c.fileno()
+            late = (i // len(combos)) % 2 == 1
+            fd = None if late else c.fileno()
             box = {}
 
             def reader(c=c, n=n, stream=stream, box=box):
@@ -574,6 +655,9 @@ def blocked_transport_level(ctx, ncases):
             if not pair.wait_for(lambda: _in_blocking_read(t.ident), timeout=30):
                 ctx.inconclusive("blocked-reader transport case: reader never reached the wait")
                 continue
+            if late:
+                fd = c.fileno()  # the reader was parked before the descriptor (and its event) existed
+                ctx.count("blocked_before_first_fileno_confirmed_transport")
             data = bytes((j * 7 + 1) & 0xFF for j in range(k))
             (s.sendall if stream == "stdout" else s.sendall_stderr)(data)
             t.join(60)
@@ -598,7 +682,7 @@ def blocked_transport_level(ctx, ncases):
             ob["pending"] = bool(ob["out"] or ob["err"] or ob["eof"] or ob["closed"])
             kind = mismatch_kind(ob)
             if kind is not None:
-                ctx.violation(blocked_sig(kind, rel, "Channel over a transport pair"),
+                ctx.violation(blocked_sig(kind, rel, "Channel over a transport pair", late),
                               "select() on Channel.fileno() disagrees with the buffers after a blocked recv was fed one packet",
                               dict(desc, observed=ob, got=got))
             c.close()
@@ -631,6 +715,8 @@ def scripted_sequence(ctx, eng, ops, tag, sample=False):
             elif k == "err":
                 c._feed_extended(msg_ext(ERR_BYTES[eo:eo + op[1]]))
                 eo += op[1]
+            elif k == "ext":
+                c._feed_extended(msg_ext(ERR_BYTES[:op[1]], code=op[2]))
             elif k in ("recv", "recv_stderr"):
                 try:
                     getattr(c, k)(op[1])
@@ -673,9 +759,18 @@ def scripted_sequence(ctx, eng, ops, tag, sample=False):
         ctx.count("combine_on_before_fileno_and_off_at_end")
     if box["bad"] is not None:
         kind, op, ob = box["bad"]
-        ctx.violation("%s; %s sequence, first seen after %s" % (kind, tag, op[0] if op[0] != "combine" else "combine=%s" % op[1]),
-                      "select() on Channel.fileno() disagrees with the buffers/flags after a sequential op",
-                      dict(ops=ops, observed=ob))
+        if kind == "descriptor readable with nothing pending" and any(
+                o[0] in ("out", "err") and o[1] == 0 for o in ops[:box["done"]]):
+            ctx.violation(ZERO_SIG, "an empty CHANNEL_DATA/EXTENDED_DATA feed left the descriptor readable with nothing to read",
+                          dict(ops=ops, observed=ob))
+            kind = None
+        opname = ("combine=%s" % op[1] if op[0] == "combine" else
+                  "zero-length %s feed" % op[0] if op[0] in ("out", "err") and op[1] == 0 else
+                  "extended data of a discarded type" if op[0] == "ext" else op[0])
+        if kind is not None:
+            ctx.violation("%s; %s sequence, first seen after %s" % (kind, tag, opname),
+                          "select() on Channel.fileno() disagrees with the buffers/flags after a sequential op",
+                          dict(ops=ops, observed=ob))
     if run.excs or run.leaked or run.hung:
         ctx.inconclusive("%s sequence did not finish: %r %r %r" % (tag, ops, run.excs, run.hung))
         return
@@ -725,6 +820,171 @@ def combine_random(ctx, eng, n):
         scripted_sequence(ctx, eng, ops, "combine", sample=(i == 0))
 
 
+# ------------------------------------------------------------------ zero-length packets
+# An empty CHANNEL_DATA / EXTENDED_DATA packet is legal on the wire.  It adds nothing to read, so it
+# must not make the descriptor readable.  Exhaustive short histories (stub channel), the bare
+# BufferedPipe+event, and a real transport pair whose server side emits the raw packets.
+def zero_counts(ctx, ops):
+    if any(op[0] in ("out", "err") and op[1] == 0 for op in ops):
+        ctx.count("zero_length_feed_histories")
+    if any(op[0] == "ext" for op in ops):
+        ctx.count("discarded_extended_type_histories")
+
+
+def zero_stratum(ctx, eng):
+    z_out, z_err = ("out", 0), ("err", 0)
+    acts = [z_out, z_err, ("ext", 0, 2), ("ext", 3, 2), ("out", 2), ("err", 2), ("recv", 64), ("recv_stderr", 64),
+            ("combine", True)]
+    pres = [[], [z_out], [z_err], [("out", 2)], [("combine", True)], [("ext", 0, 7)]]
+    idx = 0
+    for pre in pres:
+        for ln in (1, 2, 3):
+            for post in itertools.product(acts, repeat=ln):
+                if not any(a in (z_out, z_err) or a[0] == "ext" for a in list(post) + pre):
+                    continue
+                idx += 1
+                if not ctx.mine(idx):
+                    continue
+                ops = pre + [("fileno",)] + list(post)
+                zero_counts(ctx, ops)
+                scripted_sequence(ctx, eng, ops, "zero", sample=(idx <= ctx.nshards))
+
+
+def zero_pipe_level(ctx):
+    """BufferedPipe + event directly: feed(b"") in every position of a short feed/read history."""
+    import threading
+
+    from paramiko.buffered_pipe import BufferedPipe, PipeTimeout
+
+    acts = [("feed", b""), ("feed", b"ab"), ("read", 64), ("read", 1), ("empty",)]
+    n = 0
+    for ln in (1, 2, 3, 4):
+        for seq in itertools.product(acts, repeat=ln):
+            if ("feed", b"") not in seq:
+                continue
+            n += 1
+            if not ctx.mine(n):
+                continue
+            for evkind in ("event", "orpipe"):
+                bp = BufferedPipe()
+                if evkind == "event":
+                    ev, osp = threading.Event(), None
+                    readable = ev.is_set
+                else:
+                    osp = pipe.make_pipe()
+                    ev, _o = pipe.make_or_pipe(osp)
+                    readable = lambda osp=osp: bool(select.select([osp.fileno()], [], [], 0)[0])  # noqa: E731
+                bp.set_event(ev)
+                bad = None
+                for oi, op in enumerate(seq):
+                    if op[0] == "feed":
+                        bp.feed(op[1])
+                    elif op[0] == "read":
+                        try:
+                            bp.read(op[1], 0.0)
+                        except PipeTimeout:
+                            pass
+                    else:
+                        bp.empty()
+                    ctx.count("oracle_evaluations")
+                    ctx.count("oracle_evaluations_zero_pipe")
+                    ob = dict(readable=bool(readable()), out=len(bp._buffer), err=0, eof=False, closed=False)
+                    ob["pending"] = bool(ob["out"])
+                    if mismatch_kind(ob) and bad is None:
+                        bad = (mismatch_kind(ob), op, ob, oi)
+                ctx.case(("zero-pipe", evkind, repr(seq)))
+                ctx.count("zero_length_feed_pipe_histories")
+                if bad and bad[0].endswith("readable with nothing pending") and ("feed", b"") in seq[:bad[3] + 1]:
+                    ctx.violation(ZERO_SIG, "BufferedPipe.feed(b'') set the event although the buffer is empty",
+                                  dict(level="BufferedPipe+" + evkind, ops=[list(o) for o in seq], observed=bad[2]))
+                elif bad:
+                    ctx.violation("%s; BufferedPipe+%s history, first seen after %s"
+                                  % (bad[0].replace("descriptor", "event"), evkind, bad[1][0]),
+                                  "the event of a BufferedPipe disagrees with its buffer",
+                                  dict(ops=[list(o) for o in seq], observed=bad[2]))
+                if osp is not None:
+                    osp.close()
+
+
+def zero_transport_level(ctx, ncases):
+    """Real transport pair: the server transport emits raw (possibly empty) DATA / EXTENDED_DATA packets for
+    the client's channel, followed by an IGNORE; once the client's tap has read that IGNORE the earlier packets
+    have been dispatched (one reader thread, in order)."""
+    from paramiko.common import cMSG_CHANNEL_DATA, cMSG_CHANNEL_EXTENDED_DATA
+
+    from vf import pair
+
+    rng = ctx.rng
+    p = pair.Pair(rng=rng)
+    if not p.start(timeout=90) or not p.auth():
+        ctx.inconclusive("zero-length transport stratum: handshake failed: %r %r" % (p.client_exc, p.server_exc))
+        return
+    kinds = [("data", 0), ("ext1", 0), ("ext2", 0), ("ext2", 3), ("data", 2), ("ext1", 2)]
+    try:
+        for i in range(ncases):
+            c, s = p.session(timeout=60)
+            c.settimeout(0.0)
+            if rng.random() < 0.25:
+                c.set_combine_stderr(True)
+            fd = c.fileno()
+            script = [kinds[(i + j) % 4] if j == 0 else rng.choice(kinds) for j in range(rng.randint(1, 4))]
+            if rng.random() < 0.5:
+                script.append(("recv", 64))
+                script.append(kinds[i % 2])
+            first_bad = None
+            for step in script:
+                if step[0] == "recv":
+                    for fn in (c.recv, c.recv_stderr):
+                        try:
+                            fn(64)
+                        except Exception:
+                            pass
+                else:
+                    m = Message()
+                    if step[0] == "data":
+                        m.add_byte(cMSG_CHANNEL_DATA)
+                        m.add_int(c.get_id())
+                    else:
+                        m.add_byte(cMSG_CHANNEL_EXTENDED_DATA)
+                        m.add_int(c.get_id())
+                        m.add_int(1 if step[0] == "ext1" else 2)
+                    m.add_string(bytes(range(65, 65 + step[1])))
+                    before = len(p.msgs("c", "in", [2]))
+                    p.ts._send_user_message(m)
+                    p.ts.send_ignore(4)
+                    if not pair.wait_for(lambda: len(p.msgs("c", "in", [2])) > before, timeout=30):
+                        ctx.inconclusive("zero-length transport case: marker packet never read by the client")
+                        first_bad = "skip"
+                        break
+                    if step[1] == 0:
+                        ctx.count("zero_length_packets_delivered_" + step[0])
+                    elif step[0] == "ext2":
+                        ctx.count("discarded_extended_packets_delivered")
+                ob = dict(readable=bool(select.select([fd], [], [], 0)[0]), out=len(c.in_buffer._buffer),
+                          err=len(c.in_stderr_buffer._buffer), eof=bool(c.eof_received), closed=bool(c.closed))
+                ob["pending"] = bool(ob["out"] or ob["err"] or ob["eof"] or ob["closed"])
+                ctx.count("oracle_evaluations")
+                ctx.count("oracle_evaluations_zero_transport")
+                if mismatch_kind(ob) and first_bad is None:
+                    first_bad = (mismatch_kind(ob), step, ob)
+            ctx.case(("zero-transport", repr(script)), sample=dict(kind="zero-length transport", packets=script) if i == 0 else None)
+            if first_bad not in (None, "skip"):
+                kind, step, ob = first_bad
+                if kind == "descriptor readable with nothing pending" and any(
+                        st[0] in ("data", "ext1") and st[1] == 0 for st in script):
+                    ctx.violation(ZERO_SIG, "an empty %s packet from the peer left the descriptor readable with nothing to read"
+                                  % "CHANNEL_DATA/EXTENDED_DATA",
+                                  dict(level="transport pair", packets=script, observed=ob))
+                else:
+                    ctx.violation("%s; Channel over a transport pair, first seen after %s packet" % (kind, step[0]),
+                                  "select() on Channel.fileno() disagrees with the buffers after the peer's packet was dispatched",
+                                  dict(packets=script, observed=ob))
+            c.close()
+            s.close()
+    finally:
+        p.close()
+
+
 # ------------------------------------------------------------------ sequential stratum
 def sequential(ctx, eng, n_seq):
     """Random single-threaded op sequences; the invariant is evaluated after every op.  Each
@@ -738,7 +998,7 @@ def sequential(ctx, eng, n_seq):
         fileno_at = rng.randrange(0, 6)
         nops = rng.randint(3, 14)
         script = [rng.random() for _ in range(nops)]
-        sizes = [rng.randint(1, 4) for _ in range(nops)]
+        sizes = [rng.choice([0, 1, 2, 3, 4]) for _ in range(nops)]
         rsizes = [rng.choice([1, 2, 64]) for _ in range(nops)]
 
         def body():
@@ -807,7 +1067,11 @@ def sequential(ctx, eng, n_seq):
         ops = box["ops"]
         ctx.case(("seq", tuple(ops)), sample=dict(kind="sequential", ops=ops) if i == 0 else None)
         bad = box["bad"]
-        if bad is not None:
+        if bad is not None and bad[0] == "descriptor readable with nothing pending" and any(
+                o[0] in ("out", "err") and o[1] == 0 for o in ops):
+            ctx.violation(ZERO_SIG, "an empty CHANNEL_DATA/EXTENDED_DATA feed left the descriptor readable with nothing to read",
+                          dict(ops=ops, observed=bad[2]))
+        elif bad is not None:
             ctx.violation("%s; sequential, first seen after %s" % (bad[0], bad[1]),
                           "select() on Channel.fileno() disagrees with the buffers/flags after a sequential op",
                           dict(ops=ops, observed=bad[2]))
@@ -834,7 +1098,7 @@ def run(ctx):
             return
     stats = {}
     t_core = ctx.pick(9, 170)
-    t_end = ctx.pick(16, 380)
+    t_end = ctx.pick(15, 330)
 
     def perturbed(wl, n):
         for _ in range(n):
@@ -843,14 +1107,20 @@ def run(ctx):
 
     with sched.Engine(instrumented()) as eng:
         sequential(ctx, eng, ctx.pick(300, 6000))
+        zero_stratum(ctx, eng)
         combine_stratum(ctx, eng)
         combine_random(ctx, eng, ctx.pick(400, 8000))
         blocked_pipe_level(ctx, eng, stats)
+        late_event_pipe_level(ctx, eng, stats)
         blocked_channel_level(ctx, eng, stats)
         core = core_workloads()
         # rotate so that a time cap never always cuts the same workloads
         rot = (ctx.seed * 37) % len(core)
         core = core[rot:] + core[:rot]
+        # a fixed number of perturbed runs first (count-based: the floor must not depend on the time left)
+        for i, wl in enumerate(core[:ctx.pick(160, 640)]):
+            if ctx.mine(i):
+                perturbed(wl, 3)
         for i, wl in enumerate(core):
             if not ctx.mine(i):
                 continue
@@ -865,7 +1135,25 @@ def run(ctx):
             perturbed(wl, 8)
             sweep(ctx, eng, wl, stats, t_end + 3)
         ctx.count("engine_line_callbacks", eng.stats["line_events"])
-    ctx.guard(blocked_transport_level, ctx, ctx.pick(18, 144))
+    # INSTRUCTION granularity: every bytecode of buffered_pipe.py / pipe.py is a preemption point
+    t_instr = t_end + ctx.pick(4, 60)
+    ifuncs = sched.functions_of(pipe.PosixPipe, pipe.OrPipe, buffered_pipe.BufferedPipe)
+    with sched.Engine(instrumented(), instr_funcs=ifuncs) as eng:
+        two = [wl for wl in core_workloads() if len(wl["readers"]) + (1 if wl["feeder"] else 0) == 2]
+        rng.shuffle(two)
+        before = ctx.counters.get("preemption_points_reached", 0)
+        for i, wl in enumerate(two):
+            if not ctx.mine(i):
+                continue
+            if ctx.elapsed() > t_instr:
+                break
+            sweep(ctx, eng, wl, stats, t_instr + 2)
+            ctx.count("workloads_swept_at_instruction_granularity")
+        ctx.count("instruction_preemption_points_reached", ctx.counters.get("preemption_points_reached", 0) - before)
+        ctx.count("engine_line_callbacks", eng.stats["line_events"])
+    ctx.guard(zero_pipe_level, ctx)
+    ctx.guard(zero_transport_level, ctx, ctx.pick(12, 128))
+    ctx.guard(blocked_transport_level, ctx, ctx.pick(27, 144))
     ctx.count("distinct_interleavings_this_shard", len(stats.get("iids", ())))
     if "side_deadlock_witness" in stats:
         ctx.note("side_finding_deadlock_in_PosixPipe_clear", stats["side_deadlock_witness"])
@@ -874,13 +1162,24 @@ def run(ctx):
     for level, floor in (("pipe", 8), ("channel", 12), ("transport", 16)):
         for rel in RELS:
             ctx.require("blocked_reader_confirmed_%s_%s" % (level, rel), floor)
+    ctx.require("blocked_before_first_fileno_confirmed_channel", 100)
+    ctx.require("blocked_before_set_event_confirmed_pipe", 50)
+    ctx.require("blocked_before_first_fileno_confirmed_transport", 30)
     for stream in ("stdout", "stderr", "combined"):
         ctx.require("blocked_reader_channel_" + stream, 10)
         ctx.require("blocked_reader_transport_" + stream, 16)
+    ctx.require("zero_sequences_checked", 1500)
+    ctx.require("zero_length_feed_histories", 1000)
+    ctx.require("discarded_extended_type_histories", 500)
+    ctx.require("zero_length_feed_pipe_histories", 500)
+    for k in ("data", "ext1", "ext2"):
+        ctx.require("zero_length_packets_delivered_" + k, 12)
+    ctx.require("discarded_extended_packets_delivered", 16)
     ctx.require("combine_sequences_checked", 3000)
     ctx.require("combine_toggled_before_first_fileno", 800)
     ctx.require("combine_switched_off_after_fileno", 300)
     ctx.require("combine_on_before_fileno_and_off_at_end", 150)
+    ctx.require("instruction_preemption_points_reached", 1000)
     ctx.require("oracle_evaluations_sequential", 500)
     ctx.require("oracle_evaluations_preempt", 800)
     ctx.require("oracle_evaluations_random", 100)
